@@ -139,6 +139,23 @@ def evaluate(case):
     th, oc = cards.build(dict(order=[1, 1] if qed else [1, 0], xgrid=list(g), degree=d, mugrid=MUGRID, init=[MU0, 4]))
     mu20 = MU0 * MU0
 
+    # a "decoy" application first: another EKO with the same grid size, interpolation mode and degree but different
+    # points is applied on a target grid in this process, so that state kept between calls (e.g. a cache keyed too
+    # coarsely) shows up deterministically inside this very case
+    if case.get("decoy", True) and not linear_open:
+        gd = [x ** 0.8 for x in g]
+        dpath = cards.scratch_path("c43decoy")
+        dth, doc = cards.build(dict(order=[1, 1] if qed else [1, 0], xgrid=list(gd), degree=d, mugrid=MUGRID, init=[MU0, 4]))
+        try:
+            with EKO.create(dpath) as bld:
+                de = bld.load_cards(dth, doc).build()
+                de[(MUGRID[0][0] ** 2, MUGRID[0][1])] = Operator(B.tensor((14, n, 14, n), phase=5.5), None)
+            with EKO.read(dpath) as de:
+                apply.apply_pdf(de, PdfLike(case["pdfs"][0], MISSING[case["missing"][0]]), targetgrid=np.array([(gd[0] * gd[1]) ** 0.5]), rotate_to_evolution_basis=True)
+        finally:
+            if dpath.exists():
+                dpath.unlink()
+
     pending = []  # (entry, name, atoms, signature suffix, message)
 
     def flag(entry, name, atoms, what, msg):
